@@ -374,8 +374,14 @@ def rule_poll(ctx):
                   bad_what="%s can start another child search without re-testing is_running (lines %s)" % (C.short(key), [b.blocks[x].term["line"] for x in bad]))
 
 
+def rule_legal_src(ctx):
+    """`exactly one legal bestmove`: the legality part is shared with C09.legal-src."""
+    from . import c09
+    c09.rule_legal_src(ctx)
+
+
 RULES = [("flag-writers", rule_flag_writers), ("publish-order", rule_publish_order), ("stop-arm", rule_stop_arm),
-         ("go-reaches-spawn", rule_go_reaches_spawn), ("no-swallow", rule_no_swallow), ("poll", rule_poll)]
+         ("go-reaches-spawn", rule_go_reaches_spawn), ("no-swallow", rule_no_swallow), ("poll", rule_poll), ("legal-src", rule_legal_src)]
 
 
 def run(tier):
